@@ -275,6 +275,7 @@ type PacketBytes struct {
 
 func (p *PacketBytes) copy() PacketBytes {
 	return PacketBytes{
+		Auth:        atomic.LoadUint64(&p.Auth),
 		Connect:     atomic.LoadUint64(&p.Connect),
 		Connack:     atomic.LoadUint64(&p.Connack),
 		Disconnect:  atomic.LoadUint64(&p.Disconnect),
